@@ -184,6 +184,11 @@ def make_fan(oid, n_corner, rule, order, coords, tiers=("quick", "thorough")):
             else:
                 ctx.solver.add(x[i] >= -1, x[i] <= 1, y[i] >= -1, y[i] <= 1, zc[i] >= -1, zc[i] <= 1)
                 ctx.solver.add(x[i] * x[i] + y[i] * y[i] + zc[i] * zc[i] >= sc.lift(0.81), x[i] + y[i] + zc[i] >= sc.lift(0.9))   # near the unit sphere, one octant-ish cap
+        # distinct corners (a face does not repeat a corner): some coordinate differs by at least 0.05
+        d = sc.lift(0.05 if coords != "spherical" else 1.0)
+        for i in range(n_corner):
+            for j in range(i):
+                ctx.solver.add(z3.Or(*[z3.Or(a[i] - a[j] >= d, a[j] - a[i] >= d) for a in ((x, y) if coords == "spherical" else (x, y, zc))]))
         ctx.eng.declare("x", x); ctx.eng.declare("y", y); ctx.eng.declare("z", zc)
         return x, y, zc
 
